@@ -735,8 +735,49 @@ var classifierExempt = map[string]string{
 }
 
 // checkMergeSymmetry: allOf merging takes two schemas; whatever field it reads from one it reads from the other.
+// checkInferredTypeNames: a type name the parser infers from a value (infer_types) must be one of the declared
+// SchemaType constants, or every later switch over the type rejects the schema.
+func checkInferredTypeNames(c *core.Ctx, r *core.Rule, prog *core.Prog) {
+	jp := prog.ByPath[pkgJS]
+	fn := prog.Func(pkgJS, "inferJSONType")
+	if jp == nil || fn == nil {
+		r.Undecided("anchor:inferJSONType", "-", "jsonschema.inferJSONType not found")
+		return
+	}
+	declared := map[string]bool{}
+	for _, m := range jp.Members {
+		if k, ok := m.(*ssa.NamedConst); ok {
+			if _, tn := core.NamedOf(k.Type()); tn == "SchemaType" && k.Value.Value != nil && k.Value.Value.Kind() == constant.String {
+				declared[constant.StringVal(k.Value.Value)] = true
+			}
+		}
+	}
+	n := 0
+	for _, b := range fn.Blocks {
+		ret, ok := b.Instrs[len(b.Instrs)-1].(*ssa.Return)
+		if !ok || len(ret.Results) == 0 {
+			continue
+		}
+		k, ok := ret.Results[0].(*ssa.Const)
+		if !ok || k.Value == nil || k.Value.Kind() != constant.String || constant.StringVal(k.Value) == "" {
+			continue
+		}
+		n++
+		name := constant.StringVal(k.Value)
+		if declared[name] {
+			r.Pass(fmt.Sprintf("inferJSONType can return %q, a declared SchemaType", name))
+		} else {
+			r.Fail("inferred-type-name:"+name, c.Pos(ret.Pos()), fmt.Sprintf("inferJSONType returns the type name %q, which is not among the declared SchemaType constants: a schema whose type is inferred from such a value is rejected later as an unexpected schema type", name))
+		}
+	}
+	if n == 0 || len(declared) == 0 {
+		r.Undecided("inferred-type-name:none", c.Pos(fn.Pos()), "no constant type names / no SchemaType constants found")
+	}
+}
+
 func checkMergeSymmetry(c *core.Ctx, prog *core.Prog) {
 	r := c.NewRule("R03.5", "S1", "allOf merging reads the same schema fields from both operands", 2)
+	checkInferredTypeNames(c, r, prog)
 	for _, name := range []string{"mergeProperties", "mergeSchemes", "mergeNSchemes"} {
 		fn := prog.Func(pkgGen, name)
 		if fn == nil {
